@@ -544,18 +544,9 @@ package gedcom
 //@   props C03
 //@   safety
 //@   assigns H.gedcom.SimpleNode.value
-// needsFamily / needsDocument panic when their argument is nil: for C03 that
-// is a precondition every caller has to establish.
-//@ func needsFamily
-//@   props C03
-//@   safety
-//@   requires family != nil
-//@   assigns nothing
-//@ func needsDocument
-//@   props C03
-//@   safety
-//@   requires document != nil
-//@   assigns nothing
+// needsFamily / needsDocument panic when their argument is nil. They have no
+// contract: they are inlined, so for C03 their panic is an obligation
+// (unreachable) at every place the decoder reaches them.
 
 // ---------------------------------------------------------------------------
 // C03: Decoder.Decode never crashes. Callees are opaque here (their own
@@ -577,8 +568,7 @@ package gedcom
 //@   props C03 C02
 //@   safety
 //@   requires doc != nil
-//@   requires nonnil: forall(i, 0, len(doc.nodes), doc.nodes[i] != nil)
-//@   ensures nonnil: forall(i, 0, len(doc.nodes), doc.nodes[i] != nil)
+//@   ensures nonnil: implies(forall(i, 0, old(len(doc.nodes)), old(doc.nodes[i]) != nil), forall(i, 0, len(doc.nodes), doc.nodes[i] != nil))
 //@   ensures grows: len(doc.nodes) == old(len(doc.nodes)) + ite(tag(node) == 0 || data(node) == 0, 0, 1)
 //@   ensures kept: forall(i, 0, old(len(doc.nodes)), doc.nodes[i] == old(doc.nodes[i]))
 //@   ensures last: implies(!(tag(node) == 0 || data(node) == 0), doc.nodes[len(doc.nodes)-1] == node)
@@ -611,3 +601,112 @@ package gedcom
 //@   loop 1 invariant apart: len(indents) == 0 || arr(indents) != arr(document.nodes)
 //@   loop 1 invariant allocated: arr(indents) < alloc && arr(document.nodes) < alloc
 //@   ensures one-of: (result0 != nil) != (result1 != nil)
+
+// ---------------------------------------------------------------------------
+// C14: the decoder-output invariant as field invariants. Role nodes always
+// know their family, record nodes their document, and the embedded node
+// pointers are set. Assumed for every existing object, obliged wherever an
+// object of these types is allocated or the field is stored, and a module scan
+// makes sure no other code does either.
+//@ fieldinv C14: HusbandNode.family, HusbandNode.SimpleNode, WifeNode.family, WifeNode.SimpleNode, ChildNode.family, ChildNode.SimpleNode
+//@ fieldinv C14: NameNode.SimpleNode, DateNode.SimpleNode, PlaceNode.SimpleNode
+//@ sweep C14: NewNameNode, NewDateNode, NewPlaceNode
+//@ fieldinv C14: simpleDocumentNode.document, simpleDocumentNode.SimpleNode, FamilyNode.simpleDocumentNode, IndividualNode.simpleDocumentNode
+//@ func newHusbandNode
+//@   props C14
+//@   safety
+//@   closed
+//@   inline
+//@   requires family != nil
+//@ func newWifeNode
+//@   props C14
+//@   safety
+//@   closed
+//@   inline
+//@   requires family != nil
+//@ func newChildNode
+//@   props C14
+//@   safety
+//@   closed
+//@   inline
+//@   requires family != nil
+//@ func newSimpleDocumentNode
+//@   props C14
+//@   safety
+//@   closed
+//@   inline
+//@   requires document != nil
+//@ func newFamilyNode
+//@   props C14
+//@   safety
+//@   closed
+//@   inline
+//@   requires document != nil
+//@ func newIndividualNode
+//@   props C14
+//@   safety
+//@   closed
+//@   inline
+//@   requires document != nil
+// newNodeWithChildren panics ("cannot create X without a family/document") on
+// API misuse; the decoder never reaches that (C03). For the invariant only
+// the objects that do get created matter.
+//@ func newNodeWithChildren
+//@   props C14
+//@   safety
+//@   inline
+//@   allowpanic "cannot create"
+//@ func newChildNodeWithIndividual
+//@   props C14
+//@   safety
+//@   closed
+//@   inline
+//@   requires family != nil && individual != nil
+//@ func FamilyNode.AddChild
+//@   props C14
+//@   safety
+//@   inline
+//@   requires node != nil && individual != nil
+//@ sweep C14: newNode, NewNode, FamilyNode.addChild, shallowCopyNode, SimpleNameFilter$1, RemoveDuplicateNamesFilter$1
+//@ sweep C14: FamilyNode.SetWifePointer, FamilyNode.SetHusbandPointer, Document.AddIndividual, Document.AddFamily
+//@ sweep C14: simpleDocumentNode.ShallowCopy
+// The child lookups go through reflection (Compound) and a sync.Map cache
+// (NodesWithTag): outside the engine. Assumed: they return without panicking,
+// write no node field, and NodesWithTag returns no nil element (children lists
+// hold no nil: the decoder never adds one).
+//@ func NodesWithTag
+//@   trusted
+//@   ensures forall(i, 0, len(result), result[i] != nil && data(result[i]) != 0 && !fresh(data(result[i])))
+//@   assigns alloc
+//@ func Compound
+//@   trusted
+//@   ensures forall(i, 0, len(result), result[i] != nil)
+//@   assigns alloc
+//@ func First
+//@   trusted
+//@   ensures !fresh(data(result))
+//@   assigns alloc
+//@ func Last
+//@   trusted
+//@   ensures !fresh(data(result))
+//@   assigns alloc
+//@ func Document.NodeByPointer
+//@   trusted
+//@   assigns nothing
+// ---------------------------------------------------------------------------
+// C14: zero-annotation safety sweep of the accessor layer. Every index, slice
+// bound, nil dereference, nil interface call, type assertion and explicit
+// panic in these functions (and in the functions they inline) is an
+// obligation. No precondition beyond the receiver's type invariant is assumed:
+// references may dangle, names may be missing, values may be empty.
+//@ sweep C14: valueToPointer, Value, Pointer, String, DateAndPlace, Atoi, CleanSpace
+//@ sweep C14: HusbandNode.Family, HusbandNode.Individual, HusbandNode.IsIndividual
+//@ sweep C14: WifeNode.Family, WifeNode.Individual, WifeNode.IsIndividual
+//@ sweep C14: ChildNode.Family, ChildNode.Individual, ChildNode.Father, ChildNode.Mother
+//@ sweep C14: ChildNodes.Individuals, ChildNodes.ByPointer, ChildNodes.IndividualByPointer
+//@ sweep C14: FamilyNode.Husband, FamilyNode.Wife, FamilyNode.Children, FamilyNode.HasChild
+//@ sweep C14: Document.Individuals, Document.Families, Document.Places, Document.Sources
+//@ sweep C14: IndividualNode.Name, IndividualNode.Names, IndividualNode.Sex, IndividualNode.Spouses, IndividualNode.Families
+//@ sweep C14: IndividualNode.Parents, IndividualNode.Children, IndividualNode.FamilyWithSpouse
+//@ sweep C14: NameNode.parts, NameNode.GivenName, NameNode.Surname, NameNode.Format, NameNode.String
+//@ sweep C14: Nodes.CastTo, IndividualNodes.ByPointer, FamilyNodes.ByPointer
